@@ -49,59 +49,59 @@ type AcctState struct {
 
 // OpResult is what the harness observed for one op.
 type OpResult struct {
-	Op         Op             `json:"op"`
-	Task       int            `json:"task"`
-	StartNs    int64          `json:"start_ns"`
-	EndNs      int64          `json:"end_ns"`
-	Done       bool           `json:"done"` // returned within the budget
-	Status     int            `json:"status"`
-	Location   string         `json:"location,omitempty"`
-	Ref        string         `json:"ref,omitempty"`      // reference used (update/release) or obtained (create)
-	RespBody   string         `json:"resp_body,omitempty"`
-	ISN        int32          `json:"isn"`
-	RespISN    *int32         `json:"resp_isn,omitempty"`
-	RespHasTS  bool           `json:"resp_has_ts"`
-	Units      []UnitInfo     `json:"units,omitempty"`
-	Reported   []ContainerRec `json:"reported,omitempty"`
+	Op         Op              `json:"op"`
+	Task       int             `json:"task"`
+	StartNs    int64           `json:"start_ns"`
+	EndNs      int64           `json:"end_ns"`
+	Done       bool            `json:"done"` // returned within the budget
+	Status     int             `json:"status"`
+	Location   string          `json:"location,omitempty"`
+	Ref        string          `json:"ref,omitempty"` // reference used (update/release) or obtained (create)
+	RespBody   string          `json:"resp_body,omitempty"`
+	ISN        int32           `json:"isn"`
+	RespISN    *int32          `json:"resp_isn,omitempty"`
+	RespHasTS  bool            `json:"resp_has_ts"`
+	Units      []UnitInfo      `json:"units,omitempty"`
+	Reported   []ContainerRec  `json:"reported,omitempty"`
 	ReqVol     map[int32]int32 `json:"req_vol,omitempty"`
-	Pre        []AcctState    `json:"pre,omitempty"`
-	Post       []AcctState    `json:"post,omitempty"`
-	PreSnap    string         `json:"-"`
-	PostSnap   string         `json:"-"`
-	PreNotifs  int            `json:"pre_notifs"`
-	PostNotifs int            `json:"post_notifs"`
-	PreWrites  int            `json:"pre_writes"`
-	PostWrites int            `json:"post_writes"`
-	Faulted    bool           `json:"faulted"`
-	Stacks     string         `json:"stacks,omitempty"`
-	Skipped    string         `json:"skipped,omitempty"`
-	Mem        []MemRec       `json:"-"`               // in-memory records of the op's subscriber after the op
-	Panics     []string       `json:"panics,omitempty"` // panics recovered by the HTTP layer during the op
-	Diam       *DiamResult    `json:"diam,omitempty"`
+	Pre        []AcctState     `json:"pre,omitempty"`
+	Post       []AcctState     `json:"post,omitempty"`
+	PreSnap    string          `json:"-"`
+	PostSnap   string          `json:"-"`
+	PreNotifs  int             `json:"pre_notifs"`
+	PostNotifs int             `json:"post_notifs"`
+	PreWrites  int             `json:"pre_writes"`
+	PostWrites int             `json:"post_writes"`
+	Faulted    bool            `json:"faulted"`
+	Stacks     string          `json:"stacks,omitempty"`
+	Skipped    string          `json:"skipped,omitempty"`
+	Mem        []MemRec        `json:"-"`                // in-memory records of the op's subscriber after the op
+	Panics     []string        `json:"panics,omitempty"` // panics recovered by the HTTP layer during the op
+	Diam       *DiamResult     `json:"diam,omitempty"`
 }
 
 // History is everything recorded about one run.
 type History struct {
-	Scenario   *Scenario
-	Ops        []*OpResult // in completion order of each task, tasks concatenated; sequential runs: global order
-	Epilogue   []*OpResult
-	Final      []AcctState
-	Msgs       []*simnet.Msg
-	Journal    []rt.Write
-	Notifs     []Notification
-	Census     simnet.Census
-	Goroutines int
+	Scenario        *Scenario
+	Ops             []*OpResult // in completion order of each task, tasks concatenated; sequential runs: global order
+	Epilogue        []*OpResult
+	Final           []AcctState
+	Msgs            []*simnet.Msg
+	Journal         []rt.Write
+	Notifs          []Notification
+	Census          simnet.Census
+	Goroutines      int
 	BurstCensus     simnet.Census // one simulated second after the last request returned
 	BurstGoroutines int
-	GoBase     int
-	Fired      map[string]int
-	DiamPanics []string
-	Aborted    bool // a liveness violation ended the run early
-	Tasks      []*rt.Task
-	SimEndNs   int64
-	BootErr    string
-	Credited   map[string]int64 // "supi|rg" -> initial + top-ups
-	FinalMem   map[string][]MemRec // in-memory records per subscriber at quiescence
+	GoBase          int
+	Fired           map[string]int
+	DiamPanics      []string
+	Aborted         bool // a liveness violation ended the run early
+	Tasks           []*rt.Task
+	SimEndNs        int64
+	BootErr         string
+	Credited        map[string]int64    // "supi|rg" -> initial + top-ups
+	FinalMem        map[string][]MemRec // in-memory records per subscriber at quiescence
 }
 
 type sessBinding struct {
@@ -113,14 +113,14 @@ type sessBinding struct {
 }
 
 type runner struct {
-	sc   *Scenario
-	w    *World
-	h    *History
-	mu   sync.Mutex
-	sess map[string]*sessBinding
-	seqMu sync.Mutex
-	seq  int32 // unique container sequence numbers
-	isn  int32
+	sc        *Scenario
+	w         *World
+	h         *History
+	mu        sync.Mutex
+	sess      map[string]*sessBinding
+	seqMu     sync.Mutex
+	seq       int32 // unique container sequence numbers
+	isn       int32
 	lastGrant map[string]int32 // "sess|rg" -> last granted volume (per session; guarded by mu)
 	credited  map[string]int64
 	abort     bool
@@ -595,9 +595,9 @@ func (r *runner) execOp(t *rt.Task, op *Op) *OpResult {
 
 	// response body
 	var parsed struct {
-		ISN  *int32  `json:"invocationSequenceNumber"`
-		TS   *string `json:"invocationTimeStamp"`
-		MUI  []struct {
+		ISN *int32  `json:"invocationSequenceNumber"`
+		TS  *string `json:"invocationTimeStamp"`
+		MUI []struct {
 			RG      int32 `json:"ratingGroup"`
 			Granted *struct {
 				TotalVolume int32 `json:"totalVolume"`
